@@ -45,7 +45,8 @@ type vCase struct {
 	M       int     `json:"m"`
 	Scripts [][]vOp `json:"scripts"`
 	Sched   []vStep `json:"sched"`
-	Free    bool    `json:"free"` // no forced schedule: all goroutines run freely with seeded yields
+	Split   int     `json:"split"` // > 0: TWO instances of the primitive; threads with index >= split use the second one
+	Free    bool    `json:"free"`  // no forced schedule: all goroutines run freely with seeded yields
 	Seed    int64   `json:"seed"`
 }
 
@@ -163,6 +164,18 @@ func (e *vEnv) waitGate(t *vThread, g int) {
 	ch := e.gateCh(g)
 	t.status, t.gate = vAtGate, g
 	e.progress++
+	e.mu.Unlock()
+	<-ch
+}
+
+// waitGateRaw blocks a goroutine that is not one of the driver's threads until gate g is open.
+func (e *vEnv) waitGateRaw(g int) {
+	e.mu.Lock()
+	if e.open[g] {
+		e.mu.Unlock()
+		return
+	}
+	ch := e.gateCh(g)
 	e.mu.Unlock()
 	<-ch
 }
@@ -551,490 +564,536 @@ func vRun(c *vCase) any {
 	nowMs := func() int { return int((timex.Now() - time.Hour) / time.Millisecond) }
 
 	// ---- the primitive under test and the interpretation of one operation
-	var exec func(th *vThread, op vOp) [2]int
-	var drain func() bool // one unblocking action by the controller; false if none applies
-	switch c.Prim {
-	case "sf":
-		g := NewSingleFlight()
-		exec = func(th *vThread, op vOp) (res [2]int) {
-			executed := 0
-			fn := func() (any, error) {
-				executed = 1
-				env.log(th.id, kBegin, 0, op.A, 0, 0)
-				env.waitGate(th, op.B)
-				if op.C == 0 { // scripted panic of the user function
-					env.log(th.id, kEnd, 0, op.A, 0, 1)
-					panic("verif: fn panics")
+	ninst := 1
+	if c.Split > 0 {
+		ninst = 2
+	}
+	var execs []func(th *vThread, op vOp) [2]int
+	var drains []func() bool
+	for inst := 0; inst < ninst; inst++ {
+		mine := func(th *vThread) bool { return c.Split <= 0 || (th.id >= c.Split) == (inst == 1) }
+		_ = mine
+		var exec func(th *vThread, op vOp) [2]int
+		var drain func() bool // one unblocking action by the controller; false if none applies
+		switch c.Prim {
+		case "sf":
+			g := NewSingleFlight()
+			exec = func(th *vThread, op vOp) (res [2]int) {
+				executed := 0
+				fn := func() (any, error) {
+					executed = 1
+					env.log(th.id, kBegin, 0, op.A, 0, 0)
+					env.waitGate(th, op.B)
+					if op.C == 0 { // scripted panic of the user function
+						env.log(th.id, kEnd, 0, op.A, 0, 1)
+						panic("verif: fn panics")
+					}
+					env.log(th.id, kEnd, 0, op.A, op.C, 0)
+					return op.C, nil
 				}
-				env.log(th.id, kEnd, 0, op.A, op.C, 0)
-				return op.C, nil
-			}
-			key := "k" + strconv.Itoa(op.A)
-			env.log(th.id, kInv, 0, op.A, 0, 0)
-			defer func() {
-				if p := recover(); p != nil {
-					env.log(th.id, kRet, 0, op.A, 0, 2)
-					res = [2]int{2, 0}
-				}
-			}()
-			var v any
-			flag := 0
-			if op.Code == 0 {
-				var fresh bool
-				v, fresh, _ = g.DoEx(key, fn)
-				if fresh {
-					flag = 1
-				}
-				if flag != executed {
-					flag = 7 // DoEx's fresh flag disagrees with what happened
-				}
-			} else {
-				v, _ = g.Do(key, fn)
-				flag = executed
-			}
-			val, _ := v.(int)
-			env.log(th.id, kRet, 0, op.A, val, flag)
-			return [2]int{flag, val}
-		}
-	case "lc":
-		g := NewLockedCalls()
-		exec = func(th *vThread, op vOp) (res [2]int) {
-			executed := 0
-			fn := func() (any, error) {
-				executed++
-				env.log(th.id, kBegin, 1, op.A, 0, 0)
-				env.waitGate(th, op.B)
-				if op.C == 0 {
-					env.log(th.id, kEnd, 1, op.A, 0, 1)
-					panic("verif: fn panics")
-				}
-				env.log(th.id, kEnd, 1, op.A, op.C, 0)
-				return op.C, nil
-			}
-			env.log(th.id, kInv, 1, op.A, 0, 0)
-			defer func() {
-				if p := recover(); p != nil {
-					env.log(th.id, kRet, 1, op.A, 0, 2)
-					res = [2]int{2, 0}
-				}
-			}()
-			v, _ := g.Do("k"+strconv.Itoa(op.A), fn)
-			val, _ := v.(int)
-			env.log(th.id, kRet, 1, op.A, val, executed)
-			return [2]int{executed, val}
-		}
-	case "lim":
-		l := NewLimit(c.N)
-		do := func(t int, op vOp) int {
-			env.log(t, kInv, op.Code, op.A, op.B, op.C)
-			r := 0
-			switch op.Code {
-			case 0:
-				l.Borrow()
-			case 1:
-				if l.TryBorrow() {
-					r = 1
-				}
-			default:
-				if err := l.Return(); err == ErrLimitReturn {
-					r = 1
-				} else if err != nil {
-					r = 9
-				}
-			}
-			env.log(t, kRet, op.Code, r, 0, 0)
-			return r
-		}
-		exec = func(th *vThread, op vOp) [2]int { return [2]int{do(th.id, op), 0} }
-		drain = func() bool {
-			if c.N == 0 {
-				return false // nothing can release a Borrow blocked on a limit of 0
-			}
-			do(1000, vOp{Code: 2})
-			return true
-		}
-	case "ref":
-		var r *RefResource
-		ran := map[int]bool{}
-		r = NewRefResource(func() {
-			th := env.selfThread()
-			if th == nil {
-				return
-			}
-			cur := env.curOp(th)
-			env.mu.Lock()
-			ran[th.id] = true
-			env.mu.Unlock()
-			env.log(th.id, kBegin, 1, 0, 0, 0)
-			env.waitGate(th, cur.B) // other goroutines now run into r.lock
-			if cur.A != 0 {
-				env.log(th.id, kEnd, 1, 0, 0, 1)
-				panic("verif: clean panics")
-			}
-			env.log(th.id, kEnd, 1, 0, 0, 0)
-		})
-		exec = func(th *vThread, op vOp) (out [2]int) {
-			env.log(th.id, kInv, op.Code, op.A, op.B, 0)
-			res := 0
-			defer func() {
-				if p := recover(); p != nil {
-					env.log(th.id, kRet, op.Code, 2, 0, 0)
-					out = [2]int{2, 0}
-				}
-			}()
-			if op.Code == 0 {
-				if err := r.Use(); err == ErrUseOfCleaned {
-					res = 1
-				} else if err != nil {
-					res = 9
-				}
-			} else {
-				env.mu.Lock()
-				ran[th.id] = false
-				env.mu.Unlock()
-				r.Clean()
-				env.mu.Lock()
-				if ran[th.id] {
-					res = 1
-				}
-				env.mu.Unlock()
-			}
-			env.log(th.id, kRet, op.Code, res, 0, 0)
-			return [2]int{res, 0}
-		}
-	case "once":
-		var og OnceGuard
-		exec = func(th *vThread, op vOp) [2]int {
-			env.log(th.id, kInv, op.Code, 0, 0, 0)
-			res := 0
-			if op.Code == 0 {
-				if og.Take() {
-					res = 1
-				}
-			} else if og.Taken() {
-				res = 1
-			}
-			env.log(th.id, kRet, op.Code, res, 0, 0)
-			return [2]int{res, 0}
-		}
-	case "spin":
-		var l SpinLock
-		env.spinlock = &l
-		do := func(th *vThread, t int, op vOp) int {
-			env.log(t, kInv, op.Code, 0, 0, 0)
-			res := 0
-			switch op.Code {
-			case 0:
-				if th != nil {
-					atomic.StoreInt32(&th.spinning, 1)
-				}
-				l.Lock()
-				if th != nil {
-					atomic.StoreInt32(&th.spinning, 0)
-				}
-				res = 1
-			case 1:
-				if l.TryLock() {
-					res = 1
-				}
-			default:
-				l.Unlock()
-			}
-			env.log(t, kRet, op.Code, res, 0, 0)
-			return res
-		}
-		exec = func(th *vThread, op vOp) [2]int { return [2]int{do(th, th.id, op), 0} }
-		drain = func() bool { do(nil, 1000, vOp{Code: 2}); return true }
-	case "done":
-		dc := NewDoneChan()
-		exec = func(th *vThread, op vOp) [2]int {
-			env.log(th.id, kInv, op.Code, 0, 0, 0)
-			res := 0
-			if op.Code == 0 {
-				dc.Close()
-			} else {
-				select {
-				case <-dc.Done():
-					res = 1
-				default:
-				}
-			}
-			env.log(th.id, kRet, op.Code, res, 0, 0)
-			return [2]int{res, 0}
-		}
-	case "pool":
-		var nextID int32
-		var opts []PoolOption
-		if c.M > 0 {
-			opts = append(opts, WithMaxAge(time.Duration(c.M)*time.Millisecond))
-		}
-		p := NewPool(c.N, func() any {
-			th := env.selfThread()
-			var cur vOp
-			t := 999
-			if th != nil {
-				cur, t = env.curOp(th), th.id
-			}
-			env.log(t, kBegin, 3, 0, nowMs(), 2) // the create callback has started
-			if th != nil {
-				env.waitGate(th, cur.B) // other goroutines now run into p.lock (or into create, if it is not held)
-			}
-			if cur.A != 0 {
-				env.log(t, kBegin, 3, 0, nowMs(), 1)
-				panic("verif: create panics")
-			}
-			id := int(atomic.AddInt32(&nextID, 1))
-			env.log(t, kBegin, 3, id, nowMs(), 0)
-			return id
-		}, func(x any) {
-			th := env.selfThread()
-			var cur vOp
-			t := 999
-			if th != nil {
-				cur, t = env.curOp(th), th.id
-			}
-			if cur.Code == 0 && cur.C != 0 {
-				env.log(t, kEnd, 3, x.(int), nowMs(), 1)
-				panic("verif: destroy panics")
-			}
-			env.log(t, kEnd, 3, x.(int), nowMs(), 0)
-		}, opts...)
-		var heldMu sync.Mutex
-		put := func(t int, id int) {
-			env.log(t, kInv, 1, id, nowMs(), 0)
-			p.Put(id)
-			env.log(t, kRet, 1, 0, nowMs(), 0)
-		}
-		exec = func(th *vThread, op vOp) (res [2]int) {
-			if op.Code == 0 {
-				env.log(th.id, kInv, 0, 0, nowMs(), 0)
+				key := "k" + strconv.Itoa(op.A)
+				env.log(th.id, kInv, 0, op.A, 0, 0)
 				defer func() {
-					if pv := recover(); pv != nil {
-						env.log(th.id, kRet, 0, 0, nowMs(), 2)
-						res = [2]int{0, 2}
+					if p := recover(); p != nil {
+						env.log(th.id, kRet, 0, op.A, 0, 2)
+						res = [2]int{2, 0}
 					}
 				}()
-				id, isRes := p.Get().(int) // a nil (or foreign) item is reported as resource 0
-				if isRes {
-					heldMu.Lock()
-					th.held = append(th.held, id)
-					heldMu.Unlock()
-				}
-				now := nowMs()
-				env.log(th.id, kRet, 0, id, now, 0)
-				return [2]int{id, 0}
-			}
-			if op.Code == 2 { // Put(nil): a stray Put that is not paired with a Get
-				env.log(th.id, kInv, 2, 0, nowMs(), 0)
-				p.Put(nil)
-				env.log(th.id, kRet, 2, 0, nowMs(), 0)
-				return [2]int{0, 0}
-			}
-			heldMu.Lock()
-			if len(th.held) == 0 {
-				heldMu.Unlock()
-				return [2]int{0, 1}
-			}
-			id := th.held[len(th.held)-1]
-			th.held = th.held[:len(th.held)-1]
-			heldMu.Unlock()
-			put(th.id, id)
-			return [2]int{id, 0}
-		}
-		drain = func() bool {
-			heldMu.Lock()
-			for _, th := range env.threads {
-				if len(th.held) > 0 {
-					id := th.held[len(th.held)-1]
-					th.held = th.held[:len(th.held)-1]
-					heldMu.Unlock()
-					put(1000, id)
-					return true
-				}
-			}
-			heldMu.Unlock()
-			return false
-		}
-	case "rm":
-		m := NewResourceManager()
-		// a Get with code 2 is held up (gate B) at the moment it enters the manager's single flight
-		m.singleFlight = &vGateFlight{inner: m.singleFlight, env: env}
-		var nextID int32
-		exec = func(th *vThread, op vOp) (res [2]int) {
-			if op.Code == 1 {
-				env.log(th.id, kInv, 1, 0, 0, 0)
-				err := m.Close()
-				r := 0
-				if err != nil {
-					r = 1
-				}
-				env.log(th.id, kRet, 1, r, 0, 0)
-				return [2]int{r, 0}
-			}
-			env.log(th.id, kInv, 0, op.A, 0, 0)
-			defer func() {
-				if p := recover(); p != nil {
-					env.log(th.id, kRet, 0, op.A, 0, 2)
-					res = [2]int{0, 2}
-				}
-			}()
-			r, err := m.Get("k"+strconv.Itoa(op.A), func() (io.Closer, error) {
-				env.log(th.id, kBegin, 0, op.A, 0, 0)
+				var v any
+				flag := 0
 				if op.Code == 0 {
+					var fresh bool
+					v, fresh, _ = g.DoEx(key, fn)
+					if fresh {
+						flag = 1
+					}
+					if flag != executed {
+						flag = 7 // DoEx's fresh flag disagrees with what happened
+					}
+				} else {
+					v, _ = g.Do(key, fn)
+					flag = executed
+				}
+				val, _ := v.(int)
+				env.log(th.id, kRet, 0, op.A, val, flag)
+				return [2]int{flag, val}
+			}
+		case "lc":
+			g := NewLockedCalls()
+			exec = func(th *vThread, op vOp) (res [2]int) {
+				executed := 0
+				fn := func() (any, error) {
+					executed++
+					env.log(th.id, kBegin, 1, op.A, 0, 0)
 					env.waitGate(th, op.B)
+					if op.C == 0 {
+						env.log(th.id, kEnd, 1, op.A, 0, 1)
+						panic("verif: fn panics")
+					}
+					env.log(th.id, kEnd, 1, op.A, op.C, 0)
+					return op.C, nil
 				}
-				if op.C == 1 {
-					env.log(th.id, kEnd, 0, op.A, 0, 1)
-					return nil, errVerifCreate
+				env.log(th.id, kInv, 1, op.A, 0, 0)
+				defer func() {
+					if p := recover(); p != nil {
+						env.log(th.id, kRet, 1, op.A, 0, 2)
+						res = [2]int{2, 0}
+					}
+				}()
+				v, _ := g.Do("k"+strconv.Itoa(op.A), fn)
+				val, _ := v.(int)
+				env.log(th.id, kRet, 1, op.A, val, executed)
+				return [2]int{executed, val}
+			}
+		case "lim":
+			l := NewLimit(c.N)
+			do := func(t int, op vOp) int {
+				env.log(t, kInv, op.Code, op.A, op.B, op.C)
+				r := 0
+				switch op.Code {
+				case 0:
+					l.Borrow()
+				case 1:
+					if l.TryBorrow() {
+						r = 1
+					}
+				default:
+					if err := l.Return(); err == ErrLimitReturn {
+						r = 1
+					} else if err != nil {
+						r = 9
+					}
 				}
-				if op.C == 2 {
-					env.log(th.id, kEnd, 0, op.A, 0, 2)
+				env.log(t, kRet, op.Code, r, 0, 0)
+				return r
+			}
+			exec = func(th *vThread, op vOp) [2]int { return [2]int{do(th.id, op), 0} }
+			drain = func() bool {
+				if c.N == 0 {
+					return false // nothing can release a Borrow blocked on a limit of 0
+				}
+				do(1000, vOp{Code: 2})
+				return true
+			}
+		case "ref":
+			var r *RefResource
+			ran := map[int]bool{}
+			r = NewRefResource(func() {
+				th := env.selfThread()
+				if th == nil {
+					return
+				}
+				cur := env.curOp(th)
+				env.mu.Lock()
+				ran[th.id] = true
+				env.mu.Unlock()
+				env.log(th.id, kBegin, 1, 0, 0, 0)
+				env.waitGate(th, cur.B) // other goroutines now run into r.lock
+				if cur.A != 0 {
+					env.log(th.id, kEnd, 1, 0, 0, 1)
+					panic("verif: clean panics")
+				}
+				env.log(th.id, kEnd, 1, 0, 0, 0)
+			})
+			exec = func(th *vThread, op vOp) (out [2]int) {
+				env.log(th.id, kInv, op.Code, op.A, op.B, 0)
+				res := 0
+				defer func() {
+					if p := recover(); p != nil {
+						env.log(th.id, kRet, op.Code, 2, 0, 0)
+						out = [2]int{2, 0}
+					}
+				}()
+				if op.Code == 0 {
+					if err := r.Use(); err == ErrUseOfCleaned {
+						res = 1
+					} else if err != nil {
+						res = 9
+					}
+				} else {
+					env.mu.Lock()
+					ran[th.id] = false
+					env.mu.Unlock()
+					r.Clean()
+					env.mu.Lock()
+					if ran[th.id] {
+						res = 1
+					}
+					env.mu.Unlock()
+				}
+				env.log(th.id, kRet, op.Code, res, 0, 0)
+				return [2]int{res, 0}
+			}
+		case "once":
+			var og OnceGuard
+			exec = func(th *vThread, op vOp) [2]int {
+				env.log(th.id, kInv, op.Code, 0, 0, 0)
+				res := 0
+				if op.Code == 0 {
+					if og.Take() {
+						res = 1
+					}
+				} else if og.Taken() {
+					res = 1
+				}
+				env.log(th.id, kRet, op.Code, res, 0, 0)
+				return [2]int{res, 0}
+			}
+		case "spin":
+			var l SpinLock
+			env.spinlock = &l
+			do := func(th *vThread, t int, op vOp) int {
+				env.log(t, kInv, op.Code, 0, 0, 0)
+				res := 0
+				switch op.Code {
+				case 0:
+					if th != nil {
+						atomic.StoreInt32(&th.spinning, 1)
+					}
+					l.Lock()
+					if th != nil {
+						atomic.StoreInt32(&th.spinning, 0)
+					}
+					res = 1
+				case 1:
+					if l.TryLock() {
+						res = 1
+					}
+				default:
+					l.Unlock()
+				}
+				env.log(t, kRet, op.Code, res, 0, 0)
+				return res
+			}
+			exec = func(th *vThread, op vOp) [2]int { return [2]int{do(th, th.id, op), 0} }
+			drain = func() bool { do(nil, 1000, vOp{Code: 2}); return true }
+		case "done":
+			dc := NewDoneChan()
+			exec = func(th *vThread, op vOp) [2]int {
+				env.log(th.id, kInv, op.Code, 0, 0, 0)
+				res := 0
+				if op.Code == 0 {
+					dc.Close()
+				} else {
+					select {
+					case <-dc.Done():
+						res = 1
+					default:
+					}
+				}
+				env.log(th.id, kRet, op.Code, res, 0, 0)
+				return [2]int{res, 0}
+			}
+		case "pool":
+			var nextID int32
+			slowDestroy := false
+			for _, sc := range c.Scripts {
+				for _, o := range sc {
+					if o.Code == 0 && o.C == 2 {
+						slowDestroy = true
+					}
+				}
+			}
+			var opts []PoolOption
+			if c.M > 0 {
+				opts = append(opts, WithMaxAge(time.Duration(c.M)*time.Millisecond))
+			}
+			p := NewPool(c.N, func() any {
+				th := env.selfThread()
+				var cur vOp
+				t := 999
+				if th != nil {
+					cur, t = env.curOp(th), th.id
+				}
+				env.log(t, kBegin, 3, 0, nowMs(), 2) // the create callback has started
+				if th != nil {
+					env.waitGate(th, cur.B) // other goroutines now run into p.lock (or into create, if it is not held)
+				}
+				if cur.A != 0 {
+					env.log(t, kBegin, 3, 0, nowMs(), 1)
 					panic("verif: create panics")
 				}
 				id := int(atomic.AddInt32(&nextID, 1))
-				if op.C == 3 { // this resource's Close() will return an error; the handle says so
-					id += 1000
+				env.log(t, kBegin, 3, id, nowMs(), 0)
+				return id
+			}, func(x any) {
+				th := env.selfThread()
+				var cur vOp
+				t := 999
+				if th != nil {
+					cur, t = env.curOp(th), th.id
 				}
-				env.log(th.id, kEnd, 0, op.A, id, 0)
-				return &vRes{id: id, env: env, closeErr: op.C == 3}, nil
+				if cur.Code == 0 && cur.C == 1 {
+					env.log(t, kEnd, 3, x.(int), nowMs(), 1)
+					panic("verif: destroy panics")
+				}
+				// a slow destroy: it returns only when gate 80+id is open (scripted by C == 2 on the Get that
+				// runs it; if it runs on some other goroutine the case-wide setting applies)
+				if th != nil && cur.Code == 0 && cur.C == 2 {
+					env.waitGate(th, 80+x.(int))
+				} else if th == nil && slowDestroy {
+					env.waitGateRaw(80 + x.(int))
+				}
+				env.log(t, kEnd, 3, x.(int), nowMs(), 0)
+			}, opts...)
+			var heldMu sync.Mutex
+			put := func(t int, id int) {
+				env.log(t, kInv, 1, id, nowMs(), 0)
+				p.Put(id)
+				env.log(t, kRet, 1, 0, nowMs(), 0)
+			}
+			exec = func(th *vThread, op vOp) (res [2]int) {
+				if op.Code == 0 {
+					env.log(th.id, kInv, 0, 0, nowMs(), 0)
+					defer func() {
+						if pv := recover(); pv != nil {
+							env.log(th.id, kRet, 0, 0, nowMs(), 2)
+							res = [2]int{0, 2}
+						}
+					}()
+					id, isRes := p.Get().(int) // a nil (or foreign) item is reported as resource 0
+					if isRes {
+						heldMu.Lock()
+						th.held = append(th.held, id)
+						heldMu.Unlock()
+					}
+					now := nowMs()
+					env.log(th.id, kRet, 0, id, now, 0)
+					return [2]int{id, 0}
+				}
+				if op.Code == 2 { // Put(nil): a stray Put that is not paired with a Get
+					env.log(th.id, kInv, 2, 0, nowMs(), 0)
+					p.Put(nil)
+					env.log(th.id, kRet, 2, 0, nowMs(), 0)
+					return [2]int{0, 0}
+				}
+				heldMu.Lock()
+				if len(th.held) == 0 {
+					heldMu.Unlock()
+					return [2]int{0, 1}
+				}
+				id := th.held[len(th.held)-1]
+				th.held = th.held[:len(th.held)-1]
+				heldMu.Unlock()
+				put(th.id, id)
+				return [2]int{id, 0}
+			}
+			drain = func() bool {
+				heldMu.Lock()
+				for _, th := range env.threads {
+					if len(th.held) > 0 && mine(th) {
+						id := th.held[len(th.held)-1]
+						th.held = th.held[:len(th.held)-1]
+						heldMu.Unlock()
+						put(1000, id)
+						return true
+					}
+				}
+				heldMu.Unlock()
+				return false
+			}
+		case "rm":
+			m := NewResourceManager()
+			// a Get with code 2 is held up (gate B) at the moment it enters the manager's single flight
+			m.singleFlight = &vGateFlight{inner: m.singleFlight, env: env}
+			var nextID int32
+			exec = func(th *vThread, op vOp) (res [2]int) {
+				if op.Code == 1 {
+					env.log(th.id, kInv, 1, 0, 0, 0)
+					err := m.Close()
+					r := 0
+					if err != nil {
+						r = 1
+					}
+					env.log(th.id, kRet, 1, r, 0, 0)
+					return [2]int{r, 0}
+				}
+				env.log(th.id, kInv, 0, op.A, 0, 0)
+				defer func() {
+					if p := recover(); p != nil {
+						env.log(th.id, kRet, 0, op.A, 0, 2)
+						res = [2]int{0, 2}
+					}
+				}()
+				r, err := m.Get("k"+strconv.Itoa(op.A), func() (io.Closer, error) {
+					env.log(th.id, kBegin, 0, op.A, 0, 0)
+					if op.Code == 0 {
+						env.waitGate(th, op.B)
+					}
+					if op.C == 1 {
+						env.log(th.id, kEnd, 0, op.A, 0, 1)
+						return nil, errVerifCreate
+					}
+					if op.C == 2 {
+						env.log(th.id, kEnd, 0, op.A, 0, 2)
+						panic("verif: create panics")
+					}
+					id := int(atomic.AddInt32(&nextID, 1))
+					if op.C == 3 { // this resource's Close() will return an error; the handle says so
+						id += 1000
+					}
+					env.log(th.id, kEnd, 0, op.A, id, 0)
+					return &vRes{id: id, env: env, closeErr: op.C == 3}, nil
+				})
+				if err != nil {
+					env.log(th.id, kRet, 0, op.A, 0, 1)
+					return [2]int{0, 1}
+				}
+				id := r.(*vRes).id
+				env.log(th.id, kRet, 0, op.A, id, 0)
+				return [2]int{id, 0}
+			}
+		case "tl":
+			l := NewTimeoutLimit(c.N)
+			do := func(t int, op vOp) [2]int {
+				env.log(t, kInv, op.Code, op.A, nowMs(), 0)
+				r := 0
+				begin := time.Now()
+				switch op.Code {
+				case 0:
+					if err := l.Borrow(vTimeout(op)); err == ErrTimeout {
+						r = 1
+					} else if err != nil {
+						r = 9
+					}
+				case 1:
+					if l.TryBorrow() {
+						r = 1
+					}
+				case 3:
+					// the Signal of a Return whose slot was taken by somebody else before the waiter retried
+					l.cond.Signal()
+				default:
+					if err := l.Return(); err == ErrLimitReturn {
+						r = 1
+					} else if err != nil {
+						r = 9
+					}
+				}
+				real := int(time.Since(begin) / time.Millisecond)
+				env.log(t, kRet, op.Code, r, nowMs(), real)
+				return [2]int{r, 0}
+			}
+			exec = func(th *vThread, op vOp) [2]int { return do(th.id, op) }
+			drain = func() bool { do(1000, vOp{Code: 2}); return true }
+		case "bar":
+			var b Barrier
+			exec = func(th *vThread, op vOp) [2]int {
+				env.log(th.id, kInv, 1, 0, 0, 0)
+				b.Guard(func() {
+					env.log(th.id, kBegin, 1, 0, 0, 0)
+					env.waitGate(th, op.B)
+					env.log(th.id, kEnd, 1, 0, op.C, 0)
+				})
+				env.log(th.id, kRet, 1, 0, op.C, 1)
+				return [2]int{1, op.C}
+			}
+		case "mr":
+			// resources are numbered by generate (k-th call returns k); equal compares numbers and may
+			// block on the gate of the MarkBroken in progress (it runs under mr.lock)
+			var gen int32
+			mr := NewManagedResource(func() any {
+				id := int(atomic.AddInt32(&gen, 1))
+				t := 999
+				if th := env.selfThread(); th != nil {
+					t = th.id
+				}
+				env.log(t, kBegin, 2, id, 0, 0)
+				return id
+			}, func(a, b any) bool {
+				if th := env.selfThread(); th != nil {
+					env.waitGate(th, env.curOp(th).B)
+				}
+				ai, aok := a.(int)
+				bi, bok := b.(int)
+				return aok && bok && ai == bi
 			})
-			if err != nil {
-				env.log(th.id, kRet, 0, op.A, 0, 1)
-				return [2]int{0, 1}
-			}
-			id := r.(*vRes).id
-			env.log(th.id, kRet, 0, op.A, id, 0)
-			return [2]int{id, 0}
-		}
-	case "tl":
-		l := NewTimeoutLimit(c.N)
-		do := func(t int, op vOp) [2]int {
-			env.log(t, kInv, op.Code, op.A, nowMs(), 0)
-			r := 0
-			begin := time.Now()
-			switch op.Code {
-			case 0:
-				if err := l.Borrow(vTimeout(op)); err == ErrTimeout {
-					r = 1
-				} else if err != nil {
-					r = 9
+			exec = func(th *vThread, op vOp) [2]int {
+				env.log(th.id, kInv, op.Code, op.A, op.B, 0)
+				r := 0
+				if op.Code == 0 {
+					r, _ = mr.Take().(int)
+				} else {
+					mr.MarkBroken(op.A)
 				}
-			case 1:
-				if l.TryBorrow() {
-					r = 1
+				env.log(th.id, kRet, op.Code, r, 0, 0)
+				return [2]int{r, 0}
+			}
+		case "ir":
+			// the user fetch returns value A of the Get that triggered it (0 = nil, 999 = a typed nil
+			// pointer), with an error if C != 0 -- possibly a non-nil value together with the error
+			idOf := func(x any) int {
+				if x == nil {
+					return 0
 				}
-			case 3:
-				// the Signal of a Return whose slot was taken by somebody else before the waiter retried
-				l.cond.Signal()
-			default:
-				if err := l.Return(); err == ErrLimitReturn {
-					r = 1
-				} else if err != nil {
-					r = 9
+				if r, ok := x.(*vRes); ok {
+					if r == nil {
+						return 999
+					}
+					return r.id
 				}
+				return 998
 			}
-			real := int(time.Since(begin) / time.Millisecond)
-			env.log(t, kRet, op.Code, r, nowMs(), real)
-			return [2]int{r, 0}
-		}
-		exec = func(th *vThread, op vOp) [2]int { return do(th.id, op) }
-		drain = func() bool { do(1000, vOp{Code: 2}); return true }
-	case "bar":
-		var b Barrier
-		exec = func(th *vThread, op vOp) [2]int {
-			env.log(th.id, kInv, 1, 0, 0, 0)
-			b.Guard(func() {
-				env.log(th.id, kBegin, 1, 0, 0, 0)
-				env.waitGate(th, op.B)
-				env.log(th.id, kEnd, 1, 0, op.C, 0)
-			})
-			env.log(th.id, kRet, 1, 0, op.C, 1)
-			return [2]int{1, op.C}
-		}
-	case "mr":
-		// resources are numbered by generate (k-th call returns k); equal compares numbers and may
-		// block on the gate of the MarkBroken in progress (it runs under mr.lock)
-		var gen int32
-		mr := NewManagedResource(func() any {
-			id := int(atomic.AddInt32(&gen, 1))
-			t := 999
-			if th := env.selfThread(); th != nil {
-				t = th.id
-			}
-			env.log(t, kBegin, 2, id, 0, 0)
-			return id
-		}, func(a, b any) bool {
-			if th := env.selfThread(); th != nil {
-				env.waitGate(th, env.curOp(th).B)
-			}
-			ai, aok := a.(int)
-			bi, bok := b.(int)
-			return aok && bok && ai == bi
-		})
-		exec = func(th *vThread, op vOp) [2]int {
-			env.log(th.id, kInv, op.Code, op.A, op.B, 0)
-			r := 0
-			if op.Code == 0 {
-				r, _ = mr.Take().(int)
-			} else {
-				mr.MarkBroken(op.A)
-			}
-			env.log(th.id, kRet, op.Code, r, 0, 0)
-			return [2]int{r, 0}
-		}
-	case "ir":
-		// the user fetch returns value A of the Get that triggered it (0 = nil, 999 = a typed nil
-		// pointer), with an error if C != 0 -- possibly a non-nil value together with the error
-		idOf := func(x any) int {
-			if x == nil {
-				return 0
-			}
-			if r, ok := x.(*vRes); ok {
-				if r == nil {
-					return 999
+			ir := NewImmutableResource(func() (any, error) {
+				th := env.selfThread()
+				var cur vOp
+				t := 999
+				if th != nil {
+					cur, t = env.curOp(th), th.id
 				}
-				return r.id
+				env.log(t, kBegin, 0, 0, nowMs(), 0)
+				if th != nil {
+					env.waitGate(th, cur.B)
+				}
+				var val any
+				switch {
+				case cur.A == 999:
+					val = (*vRes)(nil)
+				case cur.A != 0:
+					val = &vRes{id: cur.A, env: env}
+				}
+				if cur.C != 0 {
+					env.log(t, kEnd, 0, cur.A, nowMs(), 1)
+					return val, errVerifCreate
+				}
+				env.log(t, kEnd, 0, cur.A, nowMs(), 0)
+				return val, nil
+			}, WithRefreshIntervalOnFailure(time.Duration(c.M)*time.Millisecond))
+			exec = func(th *vThread, op vOp) [2]int {
+				env.log(th.id, kInv, 0, op.A, nowMs(), op.C)
+				r, err := ir.Get()
+				e := 0
+				if err != nil {
+					e = 1
+				}
+				id := idOf(r)
+				env.log(th.id, kRet, 0, id, e, 0)
+				return [2]int{id, e}
 			}
-			return 998
+		default:
+			return map[string]any{"error": "unknown primitive " + c.Prim}
 		}
-		ir := NewImmutableResource(func() (any, error) {
-			th := env.selfThread()
-			var cur vOp
-			t := 999
-			if th != nil {
-				cur, t = env.curOp(th), th.id
-			}
-			env.log(t, kBegin, 0, 0, nowMs(), 0)
-			if th != nil {
-				env.waitGate(th, cur.B)
-			}
-			var val any
-			switch {
-			case cur.A == 999:
-				val = (*vRes)(nil)
-			case cur.A != 0:
-				val = &vRes{id: cur.A, env: env}
-			}
-			if cur.C != 0 {
-				env.log(t, kEnd, 0, cur.A, nowMs(), 1)
-				return val, errVerifCreate
-			}
-			env.log(t, kEnd, 0, cur.A, nowMs(), 0)
-			return val, nil
-		}, WithRefreshIntervalOnFailure(time.Duration(c.M)*time.Millisecond))
-		exec = func(th *vThread, op vOp) [2]int {
-			env.log(th.id, kInv, 0, op.A, nowMs(), op.C)
-			r, err := ir.Get()
-			e := 0
-			if err != nil {
-				e = 1
-			}
-			id := idOf(r)
-			env.log(th.id, kRet, 0, id, e, 0)
-			return [2]int{id, e}
+		execs = append(execs, exec)
+		drains = append(drains, drain)
+	}
+	exec := func(th *vThread, op vOp) [2]int {
+		if c.Split > 0 && th.id >= c.Split {
+			return execs[1](th, op)
 		}
-	default:
-		return map[string]any{"error": "unknown primitive " + c.Prim}
+		return execs[0](th, op)
+	}
+	var drain func() bool
+	for _, d := range drains {
+		if d != nil {
+			drain = func() bool {
+				for _, d := range drains {
+					if d != nil && d() {
+						return true
+					}
+				}
+				return false
+			}
+		}
 	}
 
 	// ---- threads
